@@ -7,10 +7,11 @@ import (
 
 // c12Oracle: one-time secrets are consumed by the login they enable.
 type c12Oracle struct {
-	lastSubmittedTOTP map[string]string // pid -> last TOTP code submitted for it (any outcome)
+	lastSubmittedTOTP map[string]string // pid -> TOTP code of the immediately preceding submission for it
+	lastAccepted      map[string]bool   // pid -> whether that preceding submission was accepted
 }
 
-func newC12Oracle(w *World) Oracle { return &c12Oracle{lastSubmittedTOTP: map[string]string{}} }
+func newC12Oracle(w *World) Oracle { return &c12Oracle{lastSubmittedTOTP: map[string]string{}, lastAccepted: map[string]bool{}} }
 
 func countCSV(s string) int {
 	if s == "" {
@@ -39,7 +40,7 @@ func (c *c12Oracle) Check(w *World, o *Obs) []Violation {
 		return out
 	}
 	st := o.Step
-	uidPut, hasUID := o.sessPut("uid")
+	uidPut, hasUID := w.loginPut(o)
 	switch st.Kind {
 	case "otp_login":
 		pid := w.pidOf(st.A, st)
@@ -113,6 +114,9 @@ func (c *c12Oracle) Check(w *World, o *Obs) []Violation {
 		}
 		code := o.presented("code")
 		if code == nil || code.Value == "" {
+			if st.Kind == "totp_validate" {
+				delete(c.lastSubmittedTOTP, pid)
+			}
 			break
 		}
 		if st.Kind == "sms_validate" {
@@ -139,16 +143,17 @@ func (c *c12Oracle) Check(w *World, o *Obs) []Violation {
 		}
 		if st.Kind == "totp_validate" && before.TOTPSecretKey != "" {
 			prev, had := c.lastSubmittedTOTP[pid]
-			if accepted && w.Cfg.TOTPOneTime && had && prev == code.Value {
+			if accepted && w.Cfg.TOTPOneTime && had && prev == code.Value && c.lastAccepted[pid] {
 				out = append(out, viol("C12", "totp_repeat", st.Kind, o,
 					fmt.Sprintf("TOTP code %s accepted for %s on two consecutive submissions with replay protection enabled", code.Value, pid)))
 			}
 			if accepted {
 				w.Stats.Reach["c12_totp_accepted"]++
-			} else if had && prev == code.Value && w.Cfg.TOTPOneTime {
+			} else if had && prev == code.Value && w.Cfg.TOTPOneTime && c.lastAccepted[pid] {
 				w.Stats.Reach["c12_totp_repeat_rejected"]++
 			}
 			c.lastSubmittedTOTP[pid] = code.Value
+			c.lastAccepted[pid] = accepted
 		}
 	}
 	return out
